@@ -2,6 +2,7 @@ import StoneVerif.Lemmas.RtCompatFwd4
 import StoneVerif.Lemmas.RtCompatBwd6
 import StoneVerif.Lemmas.RtCompatRefl
 import StoneVerif.Lemmas.RtCompatStrict
+import StoneVerif.Lemmas.RtCompatTrans
 import StoneVerif.Props.C06
 /-!
 Property theorems for C07: backwards-compatible changes (docs/evolve_spec.rst) keep peers interoperable.
@@ -136,6 +137,13 @@ theorem strict_rejects_iff (E : Ext) {ρ : Rho} {A B : Env} {tA tB : PTy} (hs : 
 theorem sub_refl {A : Env} (hA : envWF A = true) {t : PTy} (ht : tyWF A t = true) :
     subB (Rho.idOf A) A A t t = true := by
   simp [subB, compatEnv_refl hA, tySub_refl t ht]
+
+/-- `subB` composes (under the composed correspondence): a history of any number of compatible edits is one compatible
+change, so the theorems above cover 1-4 edits, or any number, without bound. -/
+theorem sub_trans {ρ₁ ρ₂ : Rho} {A B C : Env} {tA tB tC : PTy} (h1 : subB ρ₁ A B tA tB = true) (h2 : subB ρ₂ B C tB tC = true)
+    (hB : envWF B = true) (hC : envWF C = true) : subB (ρ₁.comp ρ₂) A C tA tC = true := by
+  simp only [subB, Bool.and_eq_true] at h1 h2 ⊢
+  exact ⟨compatEnv_trans h1.1 ⟨h2.1, hB, hC⟩, tySub_trans (compatEnv_wf h2.1) _ _ _ h1.2 h2.2⟩
 
 /-- the A-view of `None` is `None` at every type -/
 theorem view_none (ρ : Rho) (A : Env) (t : PTy) : view ρ A t .none = .none :=
